@@ -84,9 +84,27 @@ func vpH_C07_dv() {
 	}
 	seg := vpBuild(docs, 1025)
 	held := docs
-	switch vpChoice("variant", 3) {
+	switch vpChoice("variant", 5) {
 	case 1:
 		seg = vpLoad(vpPersist(seg))
+	case 3, 4:
+		// merge with a segment whose field list differs (field ids are remapped):
+		// it lacks "a" and "b", has doc values in "e" and an extra leading field "aa"
+		other := []*vpDoc{{fields: []*vpField{
+			{name: "aa", length: 1, terms: []*vpTerm{{term: []byte("k"), freq: 1}}},
+			{name: "e", dv: true, length: 1, terms: []*vpTerm{{term: []byte("n"), freq: 1}}},
+		}}}
+		so := vpBuild(other, 2)
+		if vpChoice("other-first", 2) == 1 {
+			mb, _ := vpMergeBytes([]*Segment{so, seg}, []*roaring.Bitmap{nil, nil}, 1025)
+			seg = vpLoad(mb)
+			held = append(append([]*vpDoc(nil), other...), docs...)
+		} else {
+			mb, _ := vpMergeBytes([]*Segment{seg, so}, []*roaring.Bitmap{nil, nil}, 1025)
+			seg = vpLoad(mb)
+			held = append(append([]*vpDoc(nil), docs...), other...)
+		}
+		vpReach("C07 merged with differing field lists")
 	case 2:
 		dr := roaring.New()
 		dr.Add(0)
@@ -94,7 +112,7 @@ func vpH_C07_dv() {
 		seg = vpLoad(mb)
 		held = append(append([]*vpDoc(nil), docs[1:]...), docs...)
 	}
-	exp := vpBuildExpect(held, vpFieldNames(docs))
+	exp := vpBuildExpect(held, vpFieldNames(held))
 	fields := vpDvFieldLists[vpChoice("fields", len(vpDvFieldLists))]
 	r, err := seg.DocumentValueReader(fields)
 	vpMust(err, "DocumentValueReader")
